@@ -97,6 +97,9 @@ def c15(prog, rep):
     O.rule_a2(prog, rep, om, units, sm)
     O.rule_a3(prog, rep, om, units)
     O.rule_m2(prog, rep, om, units, sm, fault=True, rid='M2f')
+    from . import tree as T
+    T.rule_a4(prog, rep, T.restructurers(prog)[0])
+    rep.floor('A4', 2)
     rep.floor('A1', 60)
     rep.floor('A2', 6)
     rep.floor('A3', 60)
@@ -184,7 +187,52 @@ def c07(prog, rep):
                         'sizeof values are taken from the compiler (clang -emit-llvm of a constant initialiser)']
 
 
+def c01(prog, rep):
+    from . import tree as T, counts as K, own as O
+    prog.unit(T.UNIT)
+    om = O.OwnModel(prog)
+    o = T.rule_t1(prog, rep)
+    T.rule_t2(prog, rep, o)
+    res = T.rule_t3(prog, rep)
+    T.rule_a4(prog, rep, res, rid='T3-root')
+    K.rule_t4(prog, rep, om, units=[T.UNIT])
+    rep.floor('T1', 25)
+    rep.floor('T2', 8)
+    rep.floor('T3', 18)
+    rep.floor('T3-root', 2)
+    rep.floor('T4', 4)
+    rep.explanation = (
+        'Structural clauses of "exact sorted map" visible in code shape, over all CFG paths of qtreetbl.c: T1 node keys are only '
+        'compared through tbl->compare (one orientation for all 7 call sites), copied, freed or moved - never inspected directly '
+        '(string/binary keys, default/user ordering); T2 sign-domain analysis of the comparator result at each of the 8 descent '
+        'steps of put_obj/remove_obj/find_obj/find_nearest: left only where the result can be negative, right only where it can '
+        'be positive, never for an equal key; T3 every rotation/fix-up/recursive call result is stored back to the link that '
+        'supplied its argument (23 call sites) and the public mutators store and blacken the returned root on every path; T4 the '
+        'key count moves exactly with node creation/destruction on every path (no change on the replace branch). Not decided: '
+        'equality with an ideal map over histories (runtime key sets and shapes).')
+    rep.assumptions += ['the user comparator is a strict weak ordering', 'behaviour over histories is not decided']
+
+
+def c04(prog, rep):
+    from . import tree as T
+    prog.unit(T.UNIT)
+    T.rule_t5(prog, rep)
+    o = T.rule_t1(prog, rep, rid='T1')
+    T.rule_t2(prog, rep, o)
+    rep.floor('T5', 5)
+    rep.floor('T2', 8)
+    rep.explanation = (
+        'T5 (history-independence / termination precondition): every loop that climbs through the per-node parent link is '
+        'reachable only after the root\'s parent link was cleared in the same call (directly or through reset_iterator; the guarded '
+        'form counts; getnext\'s continuation branch is exempt by contract), and every descent step x = x->left|right is preceded '
+        'by x->child->next = x. T2 (shared with C01): the descent of find_nearest goes left exactly for a negative comparator '
+        'result and right for a positive one. Floor semantics of the returned key and the continuation with getnext are not decided.')
+    rep.assumptions += ['floor semantics and the getnext continuation are runtime behaviour and are not decided']
+
+
 PROPS = {
+    'C01': dict(fn=c01, level='other'),
+    'C04': dict(fn=c04, level='other'),
     'C07': dict(fn=c07, level='other'),
     'C16': dict(fn=c16, level='other'),
     'C11': dict(fn=c11, level='other'),
